@@ -162,7 +162,27 @@ def shard_small(spec, R):
                 R.violation("C16:accessor-meta", f"zonal.mean dims {r.dims}, stat {list(r.stat.values)}, attrs {dict(r.attrs)}", case)
                 continue
             pref = np.where(np.isnan(pf), nodata, pf).astype(px.dtype) if nan_used else px
-            compare(R, "zonal.mean accessor", np.asarray(r.values), pref, zones, nz, nodata, z_nodata, odt, dict(case, accessor=True, nan_cells=nan_used))
+            if not compare(R, "zonal.mean accessor", np.asarray(r.values), pref, zones, nz, nodata, z_nodata, odt, dict(case, accessor=True, nan_cells=nan_used)):
+                continue
+            # dask-backed input (per-time chunks, y/x chunks, lazy or in-memory zones): same contract, declared == computed dtype
+            if it % 4 == 0:
+                import dask
+
+                ch = [{"time": 1, "y": -1, "x": -1}, {"time": -1, "y": max(1, zones.shape[0] // 2), "x": -1}, {"time": 1, "y": max(1, zones.shape[0] // 3), "x": max(1, zones.shape[1] // 2)}][(it // 4) % 3]
+                dd = da.chunk(ch)
+                zz = zd.chunk({"y": ch["y"], "x": ch["x"]}) if (it // 4) % 2 else zd
+                try:
+                    lazy = dd.hdc.zonal.mean(zz, ids, dtype=np.dtype(odt).name, dim_name="zz")
+                    with dask.config.set(scheduler="threads" if (it // 8) % 2 else "synchronous"):
+                        got = lazy.compute()
+                except Exception as e:
+                    R.count(f"dask_refused_{type(e).__name__}")
+                    continue
+                R.count("accessor_dask_calls")
+                if lazy.dtype != got.dtype:
+                    R.violation("C16:dask-dtype", f"zonal.mean on dask input declares {lazy.dtype} but computes {got.dtype} (requested {np.dtype(odt).name})", dict(case, accessor=True, dask=True))
+                    continue
+                compare(R, "zonal.mean accessor (dask)", np.asarray(got.values), pref, zones, nz, nodata, z_nodata, odt, dict(case, accessor=True, dask=True))
         if R.want_sample() and px.size < 200:
             R.sample({"pixels": px, "zones": zones, "num_zones": nz, "nodata": nodata, "z_nodata": z_nodata, "result": res})
 
@@ -212,7 +232,7 @@ def run_shard(spec, R):
 def finalize(agg, tier):
     c = agg["counters"]
     out = []
-    for k in ("zone_time_cells", "empty_zone_cells", "permutation_pairs", "accessor_calls", "accessor_with_nan", "large_zone_100000", "large_zone_1000000", "large_zone_17000000"):
+    for k in ("zone_time_cells", "empty_zone_cells", "permutation_pairs", "accessor_calls", "accessor_dask_calls", "accessor_with_nan", "large_zone_100000", "large_zone_1000000", "large_zone_17000000"):
         if c.get(k, 0) == 0:
             out.append(f"monitor/class {k} never observed")
     return out
